@@ -24,7 +24,7 @@ cb    == <<47,99,98>>                              \* "/cb"
 Bases == {<<>>, <<SLASH>>, <<SLASH>> \o api, <<SLASH>> \o api \o <<SLASH>>, api}
 Paths == {<<>>, Docs, ui \o <<SLASH>> \o Docs, <<SLASH>> \o Docs \o <<SLASH>>}
 DocNames == {<<>>, apijson}
-SU(k, d, f) == [kind |-> k, dirs |-> d, doc |-> f]
+SU(k, d, f) == [kind |-> k, dirs |-> d, doc |-> f, host |-> <<104>>, query |-> <<>>]
 SpecURLs == {SU("default", <<>>, <<>>), SU("abspath", <<>>, SwaggerDoc), SU("abspath", <<specs, v1>>, apijson),
              SU("absurl", <<specs>>, apijson), SU("relative", <<>>, SwaggerDoc), SU("relative", <<specs>>, apijson),
              SU("abspath", <<specs>>, <<>>)}
@@ -39,7 +39,7 @@ Configs ==
   \cup {[Base0 EXCEPT !.kind = "oauth2", !.base = b, !.path = p, !.hasnext = n, !.oauthurl = o] :
           b \in Bases, p \in Paths, n \in BOOLEAN, o \in {<<>>, cb}}
   \cup {[Base0 EXCEPT !.kind = k, !.base = b, !.path = p, !.specurl = s] :
-          k \in {"api-redoc", "api-swaggerui", "api-rapidoc"}, b \in Bases \ {<<SLASH>> \o api \o <<SLASH>>}, p \in Paths, s \in SpecURLs}
+          k \in {"api-redoc", "api-swaggerui", "api-rapidoc"}, b \in Bases \ {api}, p \in Paths, s \in SpecURLs}
 
 SegOf(id) ==
   CASE id = "docs" -> Docs [] id = "swagger.json" -> SwaggerDoc [] id = "api" -> api [] id = "ui" -> ui
